@@ -308,3 +308,10 @@ Definition aexec (f : fmt) (reg : list aentry) (bk outf : apipe) (rules : list r
   obind (fold_left (astep f reg bk outf rules) prog
                    (Ok {| am_regs := map (fun e : aentry => fst (fst e)) reg; am_lastA := None; am_lastB := None; am_res := None |}))
         (fun m => match am_res m with Some r => Ok r | None => Crash C_Harness end).
+
+(* variables over a whole list of pipelines: the last pipeline that defines a name wins *)
+Fixpoint vars_lookup (k : str) (l : list dict) : option str :=
+  match l with
+  | [] => None
+  | d :: l' => match vars_lookup k l' with Some v => Some v | None => lookup k d end
+  end.
